@@ -22,6 +22,7 @@ import (
 	"strings"
 	"unsafe"
 
+	"github.com/postalsys/muti-metroo/internal/identity"
 	"github.com/postalsys/muti-metroo/internal/protocol"
 	"github.com/postalsys/muti-metroo/verifharness/vh"
 )
@@ -296,6 +297,177 @@ func (rn *runner) fixedWitnesses() {
 	}
 }
 
+// rawNodeInfo encodes a NodeInfo WITHOUT EncodeNodeInfo's caps (more than 50
+// peers, 20 listeners or 10 shells on the wire), to exercise the decoder's clamps.
+func rawNodeInfo(ni *protocol.NodeInfo) []byte {
+	var b []byte
+	str := func(s string) { b = append(append(b, byte(len(s))), s...) }
+	u64 := func(v uint64) {
+		for i := 7; i >= 0; i-- {
+			b = append(b, byte(v>>(8*uint(i))))
+		}
+	}
+	bl := func(v bool) {
+		if v {
+			b = append(b, 1)
+		} else {
+			b = append(b, 0)
+		}
+	}
+	str(ni.DisplayName)
+	str(ni.Hostname)
+	str(ni.OS)
+	str(ni.Arch)
+	str(ni.Version)
+	u64(uint64(ni.StartTime))
+	b = append(b, byte(len(ni.IPAddresses)))
+	for _, ip := range ni.IPAddresses {
+		str(ip)
+	}
+	b = append(b, byte(len(ni.Peers)))
+	for _, p := range ni.Peers {
+		b = append(b, p.PeerID[:]...)
+		str(p.Transport)
+		u64(uint64(p.RTTMs))
+		bl(p.IsDialer)
+	}
+	b = append(b, ni.PublicKey[:]...)
+	bl(ni.UDPEnabled)
+	b = append(b, byte(len(ni.ForwardListeners)))
+	for _, f := range ni.ForwardListeners {
+		str(f.Key)
+		str(f.Address)
+	}
+	b = append(b, byte(len(ni.Shells)))
+	for _, sh := range ni.Shells {
+		str(sh)
+	}
+	bl(ni.FileTransferEnabled)
+	bl(ni.ShellEnabled)
+	bl(ni.IcmpEnabled)
+	return b
+}
+
+// boundaryWitnesses: deterministic cases sitting exactly on the limits the
+// codecs test (so that an off-by-one edit is seen on every run, whatever the seed).
+func (rn *runner) boundaryWitnesses() {
+	r := vh.NewRand(4242)
+	fr := rn.kinds["Frame"]
+	for _, n := range []int{protocol.MaxPayloadSize - 1, protocol.MaxPayloadSize, protocol.MaxPayloadSize + 1} {
+		m := frameMsg{Type: protocol.FrameStreamData, Flags: 1, StreamID: 1<<63 + 5, Payload: fill(0x5a, n)}
+		b := rn.runEnc(fr, m, n <= protocol.MaxPayloadSize, true, replay{Mode: "fixed:frame-boundary"})
+		if b != nil {
+			rn.runDec(fr, b, true, true, "fixed:frame-boundary")
+			rn.runDec(fr, b[:len(b)-1], true, true, "fixed:frame-boundary-short")
+			rn.runDec(fr, append(append([]byte{}, b...), 7), true, true, "fixed:frame-boundary-long")
+		}
+	}
+	hd := rn.kinds["Header"]
+	for _, l := range []uint32{16383, 16384, 16385, 1 << 31, 1<<32 - 1} {
+		b := []byte{4, 2, byte(l >> 24), byte(l >> 16), byte(l >> 8), byte(l), 1, 2, 3, 4, 5, 6, 7, 8}
+		rn.runDec(hd, b, true, true, "fixed:header-length")
+		rn.runDec(hd, b[:13], true, true, "fixed:header-short")
+	}
+	cr := rn.kinds["ControlResponse"]
+	for _, n := range []int{protocol.MaxPayloadSize - 13, protocol.MaxPayloadSize - 12, protocol.MaxPayloadSize - 11} {
+		m := &protocol.ControlResponse{RequestID: 9, ControlType: 2, Success: true, Data: fill(0x33, n)}
+		if b := rn.runEnc(cr, m, n <= protocol.MaxPayloadSize-12, true, replay{Mode: "fixed:control-response-boundary"}); b != nil {
+			rn.runDec(cr, b, true, true, "fixed:control-response-boundary")
+		}
+	}
+	// one-byte counts and lengths at 255 and (encoder only) 256
+	ph := rn.kinds["PeerHello"]
+	for _, n := range []int{255, 256} {
+		caps := make([]string, n)
+		for i := range caps {
+			caps[i] = "c"
+		}
+		m := &protocol.PeerHello{Version: 1, Capabilities: caps, DisplayName: string(fill('n', n))}
+		if b := rn.runEnc(ph, m, n == 255, true, replay{Mode: "fixed:peerhello-255"}); b != nil && n == 255 {
+			rn.runDec(ph, b, true, true, "fixed:peerhello-255")
+		}
+	}
+	for _, name := range []string{"SleepCommand", "Path", "RouteWithdraw", "RouteAdvertise"} {
+		k := rn.kinds[name]
+		for _, n := range []int{255, 256} {
+			ids := make([]identity.AgentID, n)
+			for i := range ids {
+				ids[i][0] = byte(i)
+			}
+			var m any
+			switch name {
+			case "SleepCommand":
+				m = &protocol.SleepCommand{CommandID: 1, SeenBy: ids}
+			case "Path":
+				m = ids
+			case "RouteWithdraw":
+				rs := make([]protocol.Route, n)
+				for i := range rs {
+					rs[i] = protocol.Route{AddressFamily: protocol.AddrFamilyIPv4, PrefixLength: 32, Prefix: []byte{10, 0, byte(i >> 8), byte(i)}, Metric: uint16(i)}
+				}
+				m = &protocol.RouteWithdraw{Sequence: 3, Routes: rs, SeenBy: ids[:1]}
+			case "RouteAdvertise":
+				rs := make([]protocol.Route, n)
+				for i := range rs {
+					rs[i] = protocol.Route{AddressFamily: protocol.AddrFamilyIPv4, PrefixLength: 32, Prefix: []byte{10, 0, byte(i >> 8), byte(i)}, Metric: uint16(i)}
+				}
+				m = &protocol.RouteAdvertise{Sequence: 3, Routes: rs, Path: ids[:1], SeenBy: ids[:1]}
+			}
+			if b := rn.runEnc(k, m, n == 255, true, replay{Mode: "fixed:count-255"}); b != nil && n == 255 {
+				rn.runDec(k, b, true, true, "fixed:count-255")
+			}
+		}
+	}
+	// NodeInfo with more entries on the wire than the decoder's caps
+	ni := rn.kinds["NodeInfo"]
+	for _, extra := range []int{0, 1, 3} {
+		info := gNodeInfo(r, false)
+		info.Peers, info.ForwardListeners, info.Shells = nil, nil, nil
+		for i := 0; i < protocol.MaxPeersInNodeInfo+extra; i++ {
+			p := protocol.PeerConnectionInfo{Transport: "q", RTTMs: int64(i), IsDialer: i%2 == 0}
+			p.PeerID[0] = byte(i)
+			info.Peers = append(info.Peers, p)
+		}
+		for i := 0; i < protocol.MaxForwardListenersInNodeInfo+extra; i++ {
+			info.ForwardListeners = append(info.ForwardListeners, protocol.ForwardListenerInfo{Key: fmt.Sprint("k", i), Address: ":1"})
+		}
+		for i := 0; i < protocol.MaxShellsInNodeInfo+extra; i++ {
+			info.Shells = append(info.Shells, fmt.Sprint("sh", i))
+		}
+		rn.runDec(ni, rawNodeInfo(info), true, true, "fixed:nodeinfo-over-caps")
+	}
+	// QueuedState whose middle entries do not decode: they must be skipped, the following kept
+	qs := rn.kinds["QueuedState"]
+	{
+		ra1, ra2 := gRouteAdvertise(r, false), gRouteAdvertise(r, false)
+		rw1, rw2 := gRouteWithdraw(r, false), gRouteWithdraw(r, false)
+		n1 := gNodeInfoAdvertise(r, false)
+		var b []byte
+		entry := func(d []byte) { b = append(append(b, byte(len(d)>>8), byte(len(d))), d...) }
+		bad := func(d []byte) []byte { return d[:len(d)/2] }
+		b = append(b, 0, 4)
+		entry(ra1.Encode())
+		entry(bad(ra1.Encode()))
+		entry(nil)
+		entry(ra2.Encode())
+		b = append(b, 0, 3)
+		entry(bad(rw1.Encode()))
+		entry(rw1.Encode())
+		entry(rw2.Encode())
+		b = append(b, 0, 2)
+		entry([]byte{1, 2, 3})
+		entry(n1.Encode())
+		b = append(b, 1)
+		b = append(b, gSleep(r, false).Encode()...)
+		b = append(b, 1)
+		b = append(b, gWake(r, false).Encode()...)
+		rn.runDec(qs, b, true, true, "fixed:queued-state-bad-entries")
+		// sleep flag set but the command does not decode: the decoder carries on at the same offset
+		rn.runDec(qs, []byte{0, 0, 0, 0, 0, 0, 1, 1, 0}, true, true, "fixed:queued-state-bad-sleep")
+		rn.runDec(qs, append([]byte{0, 0, 0, 0, 0, 0, 1}, make([]byte, 120)...), true, true, "fixed:queued-state-zero-sleep")
+	}
+}
+
 func main() {
 	c := vh.Start("C05")
 	defer c.Finish()
@@ -324,6 +496,7 @@ func main() {
 			rn.runDec(k, b, true, true, "replay")
 		} else if strings.HasPrefix(r.Mode, "fixed:") {
 			rn.fixedWitnesses()
+			rn.boundaryWitnesses()
 		} else {
 			m := k.gen(vh.NewRand(r.CaseSeed), r.Mode == "over")
 			b := rn.runEnc(k, m, r.Mode == "valid", true, r)
@@ -336,6 +509,7 @@ func main() {
 	}
 
 	rn.fixedWitnesses()
+	rn.boundaryWitnesses()
 
 	nValid, nOver, nMal, nRand := c.N(5, 60), c.N(2, 20), c.N(10, 300), c.N(3, 60)
 	nMonitor := c.N(150, 4000)
